@@ -3120,6 +3120,74 @@ def unroll_vararg_loops(trees, log):
         log.append(f'N7 {n} loop(s) over the *rest arguments of an inlined helper unrolled')
 
 
+def unfold_functional_idioms(trees, log):
+    """`a, b = map(f, (x, y))` and `a, b = (E(v) for v in (x, y))`  ->  `a = f(x); b = f(y)` (unpacking consumes the iterator in order);
+    `t = math.prod((E for v in IT), start=S)` / `t = sum((E for v in IT), S)`  ->  `t = S; for v in IT: t *= E` / `t += E` (the library
+    functions fold from the start value, left to right)."""
+    n = 0
+
+    def block(stmts):
+        nonlocal n
+        out = []
+        for st in stmts:
+            for field in ('body', 'orelse', 'finalbody'):
+                v = getattr(st, field, None)
+                if isinstance(v, list) and v and isinstance(v[0], ast.stmt) and not isinstance(st, (ast.FunctionDef, ast.AsyncFunctionDef, ast.ClassDef)):
+                    setattr(st, field, block(v))
+            if isinstance(st, ast.Try):
+                for h in st.handlers:
+                    h.body = block(h.body)
+            tgt = st.targets[0] if isinstance(st, ast.Assign) and len(st.targets) == 1 else (st.target if isinstance(st, ast.AnnAssign) and st.value is not None else None)
+            val = getattr(st, 'value', None)
+            if isinstance(tgt, (ast.Tuple, ast.List)) and isinstance(val, ast.Call) and _txt(val.func) == 'map' and len(val.args) == 2 and not val.keywords \
+                    and isinstance(val.args[1], (ast.Tuple, ast.List)) and len(val.args[1].elts) == len(tgt.elts) and _atomic(val.args[0]) \
+                    and all(_pure_read(e) for e in val.args[1].elts):
+                for t, e in zip(tgt.elts, val.args[1].elts):
+                    call = ast.Call(func=copy.deepcopy(val.args[0]), args=[e], keywords=[])
+                    out.append(ast.copy_location(ast.Assign(targets=[t], value=call, lineno=st.lineno), st))
+                n += 1
+                continue
+            if isinstance(tgt, (ast.Tuple, ast.List)) and isinstance(val, ast.GeneratorExp) and len(val.generators) == 1 and not val.generators[0].ifs \
+                    and isinstance(val.generators[0].target, ast.Name) and isinstance(val.generators[0].iter, (ast.Tuple, ast.List)) \
+                    and len(val.generators[0].iter.elts) == len(tgt.elts) and all(_pure_read(e) for e in val.generators[0].iter.elts):
+                g = val.generators[0]
+                for t, e in zip(tgt.elts, g.iter.elts):
+                    out.append(ast.copy_location(ast.Assign(targets=[t], value=_Subst({g.target.id: e}, {}).visit(copy.deepcopy(val.elt)), lineno=st.lineno), st))
+                n += 1
+                continue
+            if isinstance(tgt, ast.Name) and isinstance(val, ast.Call) and _txt(val.func) in ('math.prod', 'sum') and val.args \
+                    and isinstance(val.args[0], (ast.GeneratorExp, ast.ListComp)) and len(val.args[0].generators) == 1 and not val.args[0].generators[0].ifs:
+                gen = val.args[0]
+                g = gen.generators[0]
+                start = None
+                if len(val.args) == 2 and not val.keywords:
+                    start = val.args[1]
+                elif len(val.args) == 1 and len(val.keywords) == 1 and val.keywords[0].arg == 'start':
+                    start = val.keywords[0].value
+                elif len(val.args) == 1 and not val.keywords:
+                    start = ast.Constant(value=1 if _txt(val.func) == 'math.prod' else 0)
+                uses_t = any(isinstance(x, ast.Name) and x.id == tgt.id for x in ast.walk(gen))
+                if start is not None and _pure_read(start) and not uses_t:
+                    out.append(ast.copy_location(ast.Assign(targets=[ast.Name(id=tgt.id, ctx=ast.Store())], value=start, lineno=st.lineno), st))
+                    aug = ast.AugAssign(target=ast.Name(id=tgt.id, ctx=ast.Store()), op=ast.Mult() if _txt(val.func) == 'math.prod' else ast.Add(), value=gen.elt)
+                    loop = ast.For(target=g.target, iter=g.iter, body=[aug], orelse=[], type_comment=None)
+                    ast.copy_location(loop, st)
+                    ast.copy_location(aug, st)
+                    out.append(loop)
+                    n += 1
+                    continue
+            out.append(st)
+        for x in out:
+            ast.fix_missing_locations(x)
+        return out
+    for tree in trees.values():
+        for fn in ast.walk(tree):
+            if isinstance(fn, (ast.FunctionDef, ast.AsyncFunctionDef)):
+                fn.body = block(fn.body)
+    if n:
+        log.append(f'N4 {n} functional idiom(s) (map / generator unpacking, math.prod / sum over a generator) written as the statements they stand for')
+
+
 def _paths_read(e):
     """texts of the attribute / subscript access paths read by e"""
     out = set()
@@ -4350,6 +4418,7 @@ def run(trees, baseline=None):
     match_to_if(trees, log)
     refinement_chains(trees, log)
     named_tuple_records(trees, base, log)
+    unfold_functional_idioms(trees, log)
     instantiate_method_factories(trees, base, log)
     property_objects_to_methods(trees, log)
     expand_seeded_generators(trees, log)
